@@ -64,9 +64,11 @@ func BuildRef(scripts []*Script, opt RefOptions) (*Graph, map[*Script]*Node) {
 	for _, s := range scripts {
 		ret := b.g.add(&Node{Kind: NTerm, Term: "return", Desc: "implicit return"})
 		e := b.block(s.Body, ret, nil, nil)
-		entry := b.g.add(&Node{Kind: NSilent, Next: e, Desc: "entry " + s.Name.Placeholder()})
+		entry := b.g.add(&Node{Kind: NSilent, Next: e, Desc: "entry"})
 		entries[s] = entry
-		b.labels[s.Name] = entry
+		if s.Name != nil {
+			b.labels[s.Name] = entry
+		}
 	}
 	for _, pg := range b.gotos {
 		if pg.target.A != nil {
